@@ -64,6 +64,7 @@ msg_subject = z3.Function('msg_subject', I, I)
 whole_of = z3.Function('whole_of', I, I)          # stored units of V(k) -> k
 whole_of_r = z3.Function('whole_of_r', R, I)
 N_BALLOT_OBJS = z3.Int('n_ballot_objects')
+THE_E = z3.Int('the_election')             # the Election object being counted
 
 GHOST_INT = ('nH', 'nE', 'nD', 'nW', 'nP', 'nlog')
 GHOST_STR = ('lasttag', 'lastmsg')
@@ -103,6 +104,9 @@ def election_facts(ex, st):
         t >= 1, t < a0, cands_pos(t) >= 0, cands_elem(cands_pos(t)) == t))))
     for g in GHOST_INT:
         ghost_get(st, g)
+    # candidates and ballots of the election point back to it (Election.__init__ passes self)
+    st.facts.append((CAND, lambda t: z3.Implies(inC(t), z3.Select(C.heap_array(st, CAND, 'E', 'ref:' + ELEC), t) == THE_E)))
+    st.facts.append((BALLOT, lambda t: z3.Implies(isBallot(t), z3.Select(C.heap_array(st, BALLOT, 'E', 'ref:' + ELEC), t) == THE_E)))
     # A-profile (C15 post-parse invariant): every ranking entry is the id of a non-withdrawn candidate
     sq, jq = z3.Int('sq!'), z3.Int('jq!')
     st.assume(z3.ForAll([sq, jq], z3.Implies(z3.And(jq >= 0, jq < seqlen(sq)), validcid(seqelem(sq, jq))),
@@ -235,8 +239,52 @@ def install_election(ex):
                 return False
         raise Unsupported('non-literal argument to a Candidates selector')
 
+    SINGLE_DEFEAT = {'Defeat', 'Defeat low candidate'}
+    BATCH_DEFEAT = {'Defeat batch(zero)', 'Defeat sure loser', 'Defeat batch', 'Defeat certain loser',
+                    'Defeat remaining', 'Defeat remaining candidates', 'Defeat low quotient'}
+
+    def site_obligations(info, env, st, fr, node):
+        """rule-level obligations at the call sites of the status writers (only inside rule modules):
+        C07 a singly excluded candidate has a lowest tally; the surplus transferred first is a largest one;
+        C04 nobody holding a quota is excluded"""
+        caller = ex.cur_func.qualname if ex.cur_func is not None else ''
+        if not caller.startswith('droop.rules.') or getattr(ex, 'muted', 0):
+            return
+        name = info.qualname.rsplit('.', 1)[1]
+        me = env['self']
+        varr = C.heap_array(st, CAND, 'vote', 'val')
+        hop = select_pred(C, st, 'hopeful')
+        y = z3.Int('y!site')
+        line = getattr(node, 'lineno', 0)
+        if name == 'defeat' and ex.instance != 'guarded':
+            msg = env.get('msg')
+            lit_ = msg.lit if isinstance(msg, SStr) else None
+            family = caller.split('.')[2]
+            if lit_ is not None and (lit_ in SINGLE_DEFEAT or lit_ not in BATCH_DEFEAT and not lit_.startswith('Defeat (')) \
+                    and family in ('wigm', 'wigm_prf', 'cfer', 'scotland', 'mpls'):
+                ex.col.add('PRE', ['C07'], caller, 'defeat@%d:lowest' % ex.C.site_anchor_n(caller, 'defeat-lowest', line),
+                           'a candidate excluded singly has a lowest tally among the hopeful candidates',
+                           C.assumptions(st), z3.ForAll([y], z3.Implies(hop(y), z3.Select(varr, me.t) <= z3.Select(varr, y))))
+            if family in ('wigm', 'wigm_prf', 'cfer', 'scotland') and lit_ is not None and not lit_.startswith('Defeat remaining'):
+                q = C.read_field(st, C.read_field(st, me, 'E'), 'quota').t
+                v = z3.Select(varr, me.t)
+                holds = (v > q) if ex.instance == 'real' else (v >= q)
+                ex.col.add('PRE', ['C04'], caller, 'defeat@%d:no-quota' % ex.C.site_anchor_n(caller, 'defeat-noquota', line),
+                           'a candidate holding a quota is never excluded', C.assumptions(st), z3.Not(holds))
+        if name == 'unpend' and ex.instance != 'guarded':
+            msg = env.get('msg')
+            lit_ = msg.lit if isinstance(msg, SStr) else None
+            if lit_ == 'Transfer high surplus':
+                pend = select_pred(C, st, 'pending')
+                ex.col.add('PRE', ['C07'], caller, 'unpend@%d:largest' % ex.C.site_anchor_n(caller, 'unpend-largest', line),
+                           'the surplus transferred first is a largest one',
+                           C.assumptions(st), z3.ForAll([y], z3.Implies(pend(y), z3.Select(varr, me.t) >= z3.Select(varr, y))))
+
     def pre_call(info, env, st, fr, node):
         q = info.qualname
+        if q in ('droop.candidate.Candidate.defeat', 'droop.candidate.Candidate.unpend'):
+            site_obligations(info, env, st, fr, node)
+            return None
         if not q.startswith('droop.candidates.Candidates.'):
             return None
         if ex.cur_func is not None and ex.cur_func.qualname == q:
@@ -404,3 +452,4 @@ def install(ex):       # noqa
             ex.inline_only.add(f.qualname)
     for q in ('exhausted', 'topRank', 'topCand'):
         ex.inline_only.add('droop.election.Election.Ballot.' + q)
+    ex.inline_only.add('droop.candidate.Candidate.surplus')
